@@ -94,6 +94,16 @@ def expandWords (sec : Int) (nsec : Nat) : List Word → Nat → List Act
     ((List.range k).flatMap fun i => [Act.wall (unixNorm sec (nsec + off + (i + 1) * d)), .now g, .inc g])
       ++ expandWords sec nsec ws (off + k * d)
 
+/-- the two monitors of `C19_conc_goroutine_timestamps_monotone`, evaluated on a run's results: every timestamp lies in
+    `[tick start, tick (wall at the end)]`, and the timestamps of one goroutine never decrease in return order
+    (`last` keeps one entry per goroutine) -/
+def monitorsOk (t0 wallEnd : Int × Nat) (out : List Ret) : Bool :=
+  (out.foldl (fun (acc : Bool × List (Nat × Nat)) r =>
+      let ts := timestamp r.uuid
+      let prev := ((acc.2.find? (·.1 == r.g)).map (·.2)).getD 0
+      (acc.1 && decide (tick t0 ≤ ts) && decide (ts ≤ tick wallEnd) && decide (prev ≤ ts),
+       (r.g, ts) :: acc.2.filter (·.1 != r.g))) (true, [])).1
+
 /-- FNV-style fold over all bytes of all results, in return order (so that long runs compare in one number) -/
 def foldHash (us : List (List UInt8)) : Nat :=
   us.foldl (fun h u => u.foldl (fun h b => (h * 1099511628211 + b.toNat) % 2 ^ 64) h) 14695981039346656037
